@@ -9,6 +9,9 @@ package main
 
 import (
 	"fmt"
+	"os"
+	osexec "os/exec"
+	"path/filepath"
 	"sort"
 	"strconv"
 	"strings"
@@ -26,7 +29,38 @@ var classSeen = map[string]int{}
 
 const perClassCap = 15
 
+// The decision function guarding the seal sites of processMsgEvent (commit message) and processTimerEvent (commit timeout),
+// as extracted by factgen from the tree under check in THIS run. ./check compiles those facts (Gen/SealGates.lean) into the
+// private model driver build/bin/drv-C34<suffix> next to this binary before it starts the harness; the harness asks it
+// (command GATES). Pool-level lines (H) evaluate that function on the real pool when a node handles a commit message (S) /
+// a commit timeout (CT); R lines call the real handlers and need no such information.
+var gateMsg, gateTimer = "commitDone", "commitDone"
+
+func readGates() {
+	exe, err := os.Executable()
+	if err != nil {
+		return
+	}
+	suffix := strings.TrimPrefix(filepath.Base(exe), "hx-c34")
+	cmd := osexec.Command(filepath.Join(filepath.Dir(exe), "drv-C34"+suffix), "C34")
+	cmd.Stdin = strings.NewReader("GATES\n")
+	out, err := cmd.Output()
+	if err != nil {
+		return
+	}
+	for _, kv := range strings.Fields(string(out)) {
+		p := strings.SplitN(kv, "=", 2)
+		if len(p) == 2 && p[0] == "processMsgEvent" {
+			gateMsg = p[1]
+		}
+		if len(p) == 2 && p[0] == "processTimerEvent" {
+			gateTimer = p[1]
+		}
+	}
+}
+
 func initWorld() {
+	readGates()
 	log.InitLog(log.MaxLevelLog) // no writer: the vbft handlers log every message
 	world = c31pool.NewWorld(7)
 }
@@ -59,6 +93,8 @@ type sim struct {
 	nodes    map[uint32]*c31pool.Node
 	recv     map[uint32][]c31pool.EndorseMsg
 	sealed   map[uint32]*sealT
+	hadDone  map[uint32]bool // CandidateInfo.commitDone as set by the seal sites (ghost)
+	offGate  string          // a seal was made under a gate other than commitDone
 	msgs     []gmsg
 	revealed map[string]bool // "k.h"
 }
@@ -98,6 +134,14 @@ func parseEList(s string) ([]c31pool.ESigEntry, bool) {
 	return out, true
 }
 
+// gate evaluates on the real pool the decision function that factgen found at a seal site
+func (s *sim) gate(name string, n *c31pool.Node) (uint32, bool, bool) {
+	if name == "endorseDone" {
+		return n.EndorseDone(c31pool.BlkNum, s.C)
+	}
+	return n.CommitDone(c31pool.BlkNum, s.C, s.N)
+}
+
 func (s *sim) deliver(k int, to uint32) string {
 	if !s.isHonest(to) || k >= len(s.msgs) {
 		return "bad"
@@ -130,7 +174,7 @@ func exec(line string) hx.Result {
 		return hx.Result{Out: bad}
 	}
 	s := &sim{N: N, C: C, faulty: map[uint32]bool{}, nodes: map[uint32]*c31pool.Node{}, recv: map[uint32][]c31pool.EndorseMsg{},
-		sealed: map[uint32]*sealT{}, revealed: map[string]bool{}}
+		sealed: map[uint32]*sealT{}, hadDone: map[uint32]bool{}, revealed: map[string]bool{}}
 	wellFormed := 3*C+1 <= N
 	nf := 0
 	if f[3] != "-" {
@@ -298,11 +342,12 @@ func exec(line string) hx.Result {
 				break
 			}
 			n := s.nodes[i]
-			p, fe, done := n.CommitDone(c31pool.BlkNum, C, N)
+			p, fe, done := s.gate(gateMsg, n)
 			if !done {
 				tok = "wait"
 				break
 			}
+			s.hadDone[i] = true
 			ver, have := n.Vers[p]
 			if !have {
 				tok = fmt.Sprintf("noprop:%d", p)
@@ -310,12 +355,49 @@ func exec(line string) hx.Result {
 			}
 			if cur := s.sealed[i]; cur == nil {
 				s.sealed[i] = &sealT{p, ver, fe}
+				if gateMsg != "commitDone" {
+					s.offGate = "processMsgEvent=" + gateMsg
+				}
 				tok = fmt.Sprintf("sealed:%d.%d/%s", p, ver, c31pool.B(fe))
 			} else if cur.p == p {
 				tok = "again"
 			} else {
 				tok = "double-seal"
 			}
+		case a[0] == "CT" && len(a) == 2:
+			i, o1 := pu32(a[1])
+			if !o1 {
+				return hx.Result{Out: bad}
+			}
+			if !s.isHonest(i) {
+				tok = "bad"
+				break
+			}
+			n := s.nodes[i]
+			if s.sealed[i] != nil {
+				tok = "late"
+				break
+			}
+			if s.hadDone[i] {
+				tok = "hadDone"
+				break
+			}
+			p, fe, done := s.gate(gateTimer, n)
+			if !done {
+				tok = "resync"
+				break
+			}
+			s.hadDone[i] = true
+			ver, have := n.Vers[p]
+			if !have {
+				tok = fmt.Sprintf("noprop:%d", p)
+				break
+			}
+			s.sealed[i] = &sealT{p, ver, fe}
+			if gateTimer != "commitDone" {
+				s.offGate = "processTimerEvent=" + gateTimer
+			}
+			tok = fmt.Sprintf("sealed:%d.%d/%s", p, ver, c31pool.B(fe))
 		case a[0] == "FE" && len(a) == 7:
 			sd, o1 := pu32(a[1])
 			e, o2 := pu32(a[2])
@@ -460,7 +542,9 @@ func exec(line string) hx.Result {
 		for _, k := range keys {
 			pvs[[2]uint64{uint64(k.p), k.ver}] = true
 		}
-		if inv && single && len(pvs) > 1 {
+		if s.offGate != "" {
+			cls = "sealed-without-commit-verdict:" + s.offGate // the event loop's seal gate is not commitDone (Gen/SealGates.lean)
+		} else if inv && single && len(pvs) > 1 {
 			cls = "partial-theorem-refuted" // C34_impl_safe_partial says this cannot happen
 		}
 		if cls == "" {
@@ -766,7 +850,11 @@ func genLine(r *hx.Rand, tier string, i int) string {
 					g.add("DA,%d", r.Intn(g.nm))
 				}
 			case 6:
-				g.add("S,%d", n)
+				if r.Chance(30) {
+					g.add("CT,%d", n)
+				} else {
+					g.add("S,%d", n)
+				}
 			default:
 				if len(fl) > 0 {
 					f := fl[r.Intn(len(fl))]
@@ -825,6 +913,13 @@ func main() {
 		// honest round
 		"H 4 1 - P,0,1,0;P,2,1,0;P,3,1,0;P,1,1,0;E,0,1,0;E,2,1,0;E,3,1,0;DA,0;DA,1;DA,2;K,0;K,2;K,3;DA,3;DA,4;DA,5;S,0;S,1;S,2;S,3",
 		"H 4 1 3 -",
+		// seal gates (Driver/C34.lean searchLines; /verif/seeded/C34-r2): node 2 timed out on leader 0 and committed Byzantine 2nd
+		// proposer 3's block; its commit timeout fires before any commit for the leader's block arrives. With the shipped gate
+		// (commitDone) it does not seal; a tree whose commit-timeout site is guarded by endorseDone seals block 3 there
+		"H 4 1 3 P,2,3,0;E,2,3,0;K,2;CT,2;P,0,0,0;P,1,0,0;E,1,0,0;K,1;FE,3,3,0,0,0,3.0;D,4,1;S,1",
+		"H 4 1 3 P,2,3,0;E,2,3,0;K,2;S,2;P,0,0,0;P,1,0,0;E,1,0,0;K,1;FE,3,3,0,0,0,3.0;D,4,1;S,1",
+		// the same on real Servers (needs the ledger stub of the hook for timer 4; a no-op with an older hook)
+		"R 4 1 3 0,3 P,2,3,0;T,2,0;T,2,4;P,0,0,0;P,1,0,0;X,3,c,0,0,0,3,1;DO,1,0;X,3,c,0,0,0,3,0",
 		// Props/C34.lean non-vacuity example of the implementation model (three honest nodes seal block 1.0)
 		"H 4 1 3 P,0,1,0;P,1,1,0;P,2,1,0;E,0,1,0;E,2,1,0;D,0,2;D,1,0;D,0,1;D,1,1;K,0;K,2;D,2,1;D,3,1;D,2,2;D,3,0;S,0;S,1;S,2",
 		// the empty/full flag is outside the partial theorem (Props/C34.lean C34_partial_does_not_cover_forEmpty is the pool-level
@@ -840,8 +935,8 @@ func main() {
 		"R 4 1 - 1,2 P,0,1,0;P,1,1,0;P,2,1,0;P,3,1,0;DX,0;DX,1;DX,2;DX,3;DX,0;DX,1;DX,2;DX,3",
 	}
 	hx.Main(hx.Prop{
-		ID: "C34",
-		Rule: "global histories for N in {4,7}, up to C Byzantine nodes (sometimes C+1: precondition off), every honest node a real BlockPool: honest rounds under arbitrary delivery schedules, two honest proposers, equivocating Byzantine proposer with forged commits / spoofed indexes / genuine endorsements, an all-genuine split, random noise. Non-trivial = distinct line; kinds = agreement outcome",
+		ID:     "C34",
+		Rule:   "global histories for N in {4,7}, up to C Byzantine nodes (sometimes C+1: precondition off), every honest node a real BlockPool: honest rounds under arbitrary delivery schedules, two honest proposers, equivocating Byzantine proposer with forged commits / spoofed indexes / genuine endorsements, an all-genuine split, random noise. Non-trivial = distinct line; kinds = agreement outcome",
 		Gen:    genLine,
 		Exec:   exec,
 		Init:   initWorld,
